@@ -147,7 +147,10 @@ impl Property for C12 {
          closest_point is Intersection(p) iff p intersects g, else SinglePoint(q) with q on g and |p-q| equal to the true distance \
          (tolerance 1e-9 relative + 8 ulp), never Indeterminate for non-empty valid input; interior_point is None iff empty, the \
          returned point (a dyadic rational, located exactly) is not in the exterior, and is strictly interior for polygonal \
-         geometries; no panic. Non-trivial = the geometry is a polygon with a hole or concave, or the query is on the boundary."
+         geometries; no panic. One case in five is the geometry and its partners as one collection of mixed dimension, a third of \
+         those with a member of linear / areal TYPE without extent or area (collapsed Rect, collinear or one-point Triangle, \
+         zero-length Line) on or away from the other members, with query points on it, beside it and on its supporting line. \
+         Non-trivial = the geometry is a polygon with a hole or concave, or the query is on the boundary."
             .into()
     }
     fn assumptions() -> Vec<String> {
